@@ -281,3 +281,40 @@ Proof.
   - apply compile_touches; auto.
   - apply compile_k_touches; [apply forallb_firstn; auto|]. intro. constructor. exact IH.
 Qed.
+
+(* ------------------------------------------------------------------ *)
+(* a failed attempt leaves no trace: the sequential meaning of a program with
+   failing first attempts is that of the program alone *)
+
+Lemma run_from_fail s k w : run_from s (Fail k) w = run_from s k s.
+Proof. reflexivity. Qed.
+
+Lemma run_prog_fail p w : run_prog (Fail p) w = run_prog p w.
+Proof. reflexivity. Qed.
+
+Lemma run_compile_s_fail s0 st obs rest w :
+  (forall o w', run_from s0 (rest o) w' = run_from s0 (rest []) s0) ->
+  run_from s0 (compile_s st obs rest) w = run_from s0 (rest []) s0.
+Proof.
+  intro H. destruct st; cbn; auto.
+  destruct (k <=? w a)%Z; cbn; auto.
+Qed.
+
+Lemma run_compile_k_fail s0 rest is : forall obs w,
+  run_from s0 (compile_k is obs (fun _ => Fail rest)) w = run_from s0 rest s0.
+Proof.
+  induction is as [|i is IH]; intros obs w; cbn.
+  - reflexivity.
+  - destruct i as [st|a k st]; cbn.
+    + rewrite run_compile_s_fail; [apply IH|]. intros o w'. rewrite !IH. reflexivity.
+    + destruct (k <=? w a)%Z.
+      * rewrite run_compile_s_fail; [apply IH|]. intros o w'. rewrite !IH. reflexivity.
+      * apply IH.
+Qed.
+
+Lemma run_compile_fails is fails w :
+  run_prog (compile_fails is fails) w = run_prog (compile is []) w.
+Proof.
+  unfold run_prog. induction fails as [|k fails IH]; cbn; auto.
+  rewrite run_compile_k_fail. exact IH.
+Qed.
